@@ -104,5 +104,5 @@ class Builder:
                 o = os.path.join(s.dir, tag + x + '.o'); run(['gcc', '-O1', '-g', '-w', '-c', os.path.join(SUPPORT, x), '-o', o] + s.native_flags); srcs.append(o)
             else: srcs.append(os.path.join(SUPPORT, x))
         run(['g++', '-std=c++17', '-O1', '-g', '-DNDEBUG', '-DUSE_PPOLL=1', '-DVERIF_NATIVE', '-w'] + inc + ['-I', HARNESS] + ['-D' + d for d in list(defines) + list(stubs_defines)]
-            + ['-DVERIF_REPO_SRC="%s"' % SRC, '-DVERIF_NINJA_CC="%s/ninja.cc"' % SRC] + srcs + [s.obj[tag + u] for u in units] + s.native_flags + ['-no-pie', '-Wl,--unresolved-symbols=ignore-all', '-Wl,--wrap=fopen,--wrap=fclose,--wrap=fwrite,--wrap=fprintf,--wrap=fflush,--wrap=setvbuf,--wrap=ftell,--wrap=fseek,--wrap=unlink,--wrap=rename,--wrap=truncate,--wrap=exit' + ''.join(',--wrap=' + w for w in wrap), '-o', exe])
+            + ['-DVERIF_REPO_SRC="%s"' % SRC, '-DVERIF_NINJA_CC="%s/ninja.cc"' % SRC] + srcs + [s.obj[tag + u] for u in units] + s.native_flags + ['-no-pie', '-Wl,--unresolved-symbols=ignore-all', '-Wl,--wrap=fopen,--wrap=fclose,--wrap=fwrite,--wrap=fprintf,--wrap=fflush,--wrap=setvbuf,--wrap=ftell,--wrap=fseek,--wrap=unlink,--wrap=rename,--wrap=truncate,--wrap=exit,--wrap=isatty,--wrap=ioctl' + ''.join(',--wrap=' + w for w in wrap), '-o', exe])
         return exe
